@@ -101,7 +101,7 @@ def check_conversion(M, is_psd, tol_arg, site, tr, viol):
         return 'bad'
     err = np.abs(L.T.dot(L) - M0).max()
     scale = max(np.abs(M0).max(), 1e-300)
-    if err > 64 * d * exact.EPS * scale and is_psd is True:
+    if not err <= 64 * d * exact.EPS * scale and is_psd is True:
         viol.append(V(site, 'LtL_differs', 'L^T L differs from M by %.3g (||M|| = %.3g)' % (err, scale), tr, M=M0.tolist()))
     return 'converted'
 
